@@ -15,6 +15,9 @@ use iggy::consumer_offsets::get_consumer_offset::GetConsumerOffset;
 use iggy::consumer_offsets::store_consumer_offset::StoreConsumerOffset;
 use iggy::identifier::Identifier;
 use iggy::messages::poll_messages::{PollMessages, PollingKind, PollingStrategy};
+use iggy::messages::send_messages::{Message, Partitioning, PartitioningKind, SendMessages};
+use iggy::models::header::{HeaderKey, HeaderKind, HeaderValue};
+use std::collections::HashMap;
 use iggy::partitions::create_partitions::CreatePartitions;
 use iggy::partitions::delete_partitions::DeletePartitions;
 use iggy::streams::create_stream::CreateStream;
@@ -90,6 +93,35 @@ fn build(q: &Value) -> (u32, Bytes) {
         "create_stream" => with_code(&CreateStream { stream_id: opt(&q["id"]), name: s(q, "name").to_string() }),
         "update_stream" => with_code(&UpdateStream { stream_id: id(s_), name: s(q, "name").to_string() }),
         "create_group" => with_code(&CreateConsumerGroup { stream_id: id(s_), topic_id: id(t_), group_id: opt(&q["id"]), name: s(q, "name").to_string() }),
+        "send" => {
+            let pv = unhex(s(q, "pv"));
+            let messages: Vec<Message> = q["msgs"]
+                .as_array()
+                .unwrap()
+                .iter()
+                .map(|m| {
+                    let payload = unhex(s(m, "payload"));
+                    let hdrs = m["hdrs"].as_array().unwrap();
+                    let headers = if hdrs.is_empty() {
+                        None
+                    } else {
+                        let mut h = HashMap::new();
+                        for e in hdrs {
+                            let key = String::from_utf8(unhex(e[0].as_str().unwrap())).unwrap();
+                            h.insert(HeaderKey::new(&key).unwrap(), HeaderValue { kind: HeaderKind::from_code(e[1].as_u64().unwrap() as u8).unwrap(), value: Bytes::from(unhex(e[2].as_str().unwrap())) });
+                        }
+                        Some(h)
+                    };
+                    Message { id: s(m, "id").parse::<u128>().unwrap(), length: payload.len() as u32, payload: Bytes::from(payload), headers }
+                })
+                .collect();
+            with_code(&SendMessages {
+                stream_id: id(s_),
+                topic_id: id(t_),
+                partitioning: Partitioning { kind: PartitioningKind::from_code(u(q, "pk") as u8).unwrap(), length: pv.len() as u8, value: pv },
+                messages,
+            })
+        }
         other => panic!("unknown request kind {other}"),
     }
 }
@@ -103,6 +135,21 @@ fn decode(code: u32, payload: &[u8]) -> Value {
     match r {
         Err(_) => json!({"r": "panic"}),
         Ok(Err(e)) => json!({"r": "err", "name": e.as_string()}),
+        Ok(Ok(ServerCommand::SendMessages(c))) => {
+            // a header MAP is written in no fixed order: the decoded request is reported field by field
+            let msgs: Vec<Value> = c
+                .messages
+                .iter()
+                .map(|m| {
+                    let mut hdrs: Vec<(String, u8, String)> =
+                        m.headers.as_ref().map(|h| h.iter().map(|(k, v)| (hex(k.as_str().as_bytes()), v.kind.as_code(), hex(&v.value))).collect()).unwrap_or_default();
+                    hdrs.sort();
+                    json!({"id": m.id.to_string(), "hdrs": hdrs, "payload": hex(&m.payload), "length": m.length})
+                })
+                .collect();
+            json!({"r": "ok", "send": {"s": hex(&c.stream_id.to_bytes()), "t": hex(&c.topic_id.to_bytes()), "pk": c.partitioning.kind.as_code(), "pv": hex(&c.partitioning.value),
+                "plen": c.partitioning.length, "msgs": msgs}})
+        }
         Ok(Ok(cmd)) => {
             let re = cmd.to_bytes();
             json!({"r": "ok", "canon": hex(&re[4..])})
